@@ -6,13 +6,13 @@ D = {'1_0': 'test 1 leaks a block; test 2 allocates nothing', '2_1': 'test 1 all
      '1_4': 'test 1 leaks; test 2 only releases that block', '3_3': 'both tests allocate+release one block and leak another', '0_0': 'no allocation at all'}
 SPEC = {
     'property': 'C07',
-    'max_jobs': 3,   # ~13 GB per obligation
+    'max_jobs': 1,   # ~13 GB per obligation
     'functions_of_interest': ['MemoryLeakWarningPlugin', 'MemoryLeakDetector', 'mem_leak_operator'],
     'assumptions': ['compiled with leak detection on; test code allocates through the real global operator new/delete overloads into a static detector installed as the global one',
                     'report text builders replaced by a recorder of the listed blocks (text is C14); 4 hash buckets (hook); allocation scripts are concrete per obligation, all flags/counts symbolic'],
     'groups': [{
         'name': 'plugin', 'wrapper': 'w07.cpp', 'harness': 'h07.c',
         'config': {'memleak': True, 'stubs': STUBS, 'defines': ['-DCPPUTEST_VERIF_HASH_TABLE_SIZE=4'], 'heapcheck': False, 'empty_regex': ['^_ZN[0-9]+[A-Za-z]*FailureC[12]E', '^_ZN[0-9]+[A-Za-z]*FailureD[012]E']},
-        'obligations': [{'fn': 'harness_two_tests_%s' % k, 'tier': ('quick' if k in ('1_0', '1_5', '2_1') else 'thorough'), 'unwind': 6, 'timeout': 1800, 'unwindset': ['_ZN12SimpleString6StrCmpEPKcS1_.0:28', '_ZN12SimpleString6StrLenEPKc.0:40', '_ZN12SimpleString7StrNCpyEPcPKcm.0:40', 'env_fputs.0:40'], 'bounds': 'two consecutive tests: %s; expected-leak counts 0..3, ignore flags and own pass/fail of both tests symbolic' % d} for k, d in D.items()],
+        'obligations': [{'fn': 'harness_two_tests_%s' % k, 'tier': ('quick' if k in ('1_0', '0_0') else 'thorough'), 'unwind': 6, 'timeout': 2400, 'unwindset': ['_ZN12SimpleString6StrCmpEPKcS1_.0:28', '_ZN12SimpleString6StrLenEPKc.0:40', '_ZN12SimpleString7StrNCpyEPcPKcm.0:40', 'env_fputs.0:40'], 'bounds': 'two consecutive tests: %s; expected-leak counts 0..3, ignore flags and own pass/fail of both tests symbolic' % d} for k, d in D.items()],
     }],
 }
